@@ -35,7 +35,7 @@ LEARNERS = ["linear", "svc", "knn:proba", "tree:proba", "knn:proba1"]
 
 
 def plan(seed, tier):
-    n = 60 if tier == "quick" else 900
+    n = 60 if tier == "quick" else 4000
     cases = []
     for i in range(n):
         cases.append({"class": "fit", "index": i, "learner": LEARNERS[i % len(LEARNERS)], "max_iter": int(1 + (i * 7) % 10),
